@@ -624,9 +624,13 @@ declaratortypes(struct scope *s, struct list *result, char **name, struct scope 
 			} else {
 				s = delscope(s);
 			}
-			if (t->u.func.nparam == 1 && !t->u.func.isvararg && d->type->kind == TYPEVOID && !d->name) {
+			if (t->u.func.nparam == 1 && !t->u.func.isvararg && d->type->kind == TYPEVOID && !d->name && d->qual == QUALNONE) {
 				t->u.func.params = NULL;
 				t->u.func.nparam = 0;
+			}
+			for (d = t->u.func.params; d; d = d->next) {
+				if (d->type->kind == TYPEVOID)
+					error(&tok.loc, "parameter has void type");
 			}
 			listinsert(ptr->prev, &t->link);
 			allowattr = true;
